@@ -1,6 +1,6 @@
 (* C19 — Bytes on the wire are those of the published 5.x protocol. *)
 From V Require Import lib.Base lib.Decimal model.Ladder model.Brine model.Channel model.Published proofs.BrineP proofs.PublishedP
-  proofs.ChannelP gen.Gen_brine gen.Gen_consts gen.Gen_channel gen.Gen_protocol.
+  proofs.ChannelP proofs.WireP gen.Gen_brine gen.Gen_consts gen.Gen_channel gen.Gen_protocol.
 Open Scope N_scope.
 
 (* 1. what the code says now = what the published format says: tags, immediates, ladders, struct formats,
@@ -47,6 +47,31 @@ Theorem c19_accepts_alternative_forms :
 Proof. split; [exact accept_str_L1|split; [exact accept_str_L4|split; [exact accept_int_L4|split; [exact accept_tup_L1|exact accept_tup_L4]]]]. Qed.
 Print Assumptions c19_accepts_alternative_forms.
 
+(* 5. frames: whatever conforming frame an independent sender emits - flag byte zero with the payload as body, or any non-zero
+      flag byte with a body the receiver's zlib inflates to the payload, at ANY size (the threshold binds only what rpyc emits) -
+      a stream of them read through any benign fragmentation is delivered payload by payload *)
+Section C19_frames.
+Variable decompress : list byte -> result (list byte).
+Variable P : cparams.
+Hypothesis Hhdr : hdr_size P = 5.
+Hypothesis Hchunk : hdr_size P + nlen (flusher P) <= chunk P.
+Theorem c19_accepts_any_conforming_frames : forall tol fs payloads evs fuel,
+  Forall2 (fun f p => conforming decompress (fst f) (snd f) p) fs payloads -> benign_r tol evs -> (length fs < fuel)%nat ->
+  recv_all decompress P fuel tol evs (wire_of P fs) [] = (payloads, false).
+Proof. intros tol fs payloads evs fuel HF Hb Hf. exact (recv_all_conforming decompress P Hhdr Hchunk tol fs payloads evs [] fuel HF Hb Hf). Qed.
+
+(* 6. the layers composed: values, encoded by the published table, framed, fragmented arbitrarily, arrive as the same values *)
+Variable compress : list byte -> list byte.
+Hypothesis zlib_roundtrip : forall x, decompress (compress x) = Ok x.
+Theorem c19_values_cross_the_wire : forall BP tol cmp vs, Forall (transferable BP) vs ->
+  exists pkts, dump_all BP vs = Ok pkts /\
+    forall fs wevs revs fuel, frames compress P cmp pkts = Ok fs -> benign_w wevs -> benign_r tol revs -> (length vs < fuel)%nat ->
+      exists wire got, send_all compress P cmp wevs pkts [] = Ok (true, wire)
+                       /\ recv_all decompress P fuel tol revs wire [] = (got, false) /\ load_all BP got = Ok vs.
+Proof. intros BP tol cmp vs. exact (values_end_to_end decompress P Hhdr Hchunk compress zlib_roundtrip BP tol cmp vs). Qed.
+End C19_frames.
+Print Assumptions c19_accepts_any_conforming_frames.
+Print Assumptions c19_values_cross_the_wire.
 (* non-vacuity: a 5-byte string in its three admissible forms decodes to the same value; headers 2, 2(same) and 5 bytes *)
 Example c19_forms_sample :
   let P := {| sp := true; maxdigits := 4300 |} in
@@ -54,3 +79,14 @@ Example c19_forms_sample :
   load P (x0e :: x05 :: b) = Ok (PBytes b) /\ load P (x0f :: x00 :: x00 :: x00 :: x05 :: b) = Ok (PBytes b)
   /\ dump P (PBytes b) = Ok (x0e :: x05 :: b).
 Proof. vm_compute. repeat split. Qed.
+
+(* non-vacuity for 5: a plain frame and a "compressed" 3-byte frame (far below the threshold, flag byte 7) through a toy inflater,
+   read one byte at a time with a timeout in between, are both delivered *)
+Example c19_frames_sample :
+  let P := {| threshold := 3000; chunk := 16000; hdr_size := 5; flusher := [x0a] |} in
+  let inflate := fun b : list byte => Ok (b ++ b) in
+  let fs := [(x00, [x61; x62]); (x07, [x63; x64; x65])] in
+  Forall2 (fun f p => conforming inflate (fst f) (snd f) p) fs [[x61; x62]; [x63; x64; x65; x63; x64; x65]]
+  /\ recv_all inflate P 5 true (repeat (RData 1) 8 ++ [RTimeout] ++ repeat (RData 1) 9) (wire_of P fs) []
+     = ([[x61; x62]; [x63; x64; x65; x63; x64; x65]], false).
+Proof. split; [repeat constructor|vm_compute; reflexivity]. Qed.
